@@ -85,6 +85,11 @@ where
                     // We either still have data or we got some new data. Try to
                     // write it to the other side.
                     let processed = ready!(this.other.as_mut().poll_write(cx, new_buf))?;
+                    if processed == 0 {
+                        // `new_buf` is not empty: the other side does not take any more data.
+                        // Offering the same bytes again would spin inside this poll.
+                        return Poll::Ready(Err(io::ErrorKind::WriteZero.into()));
+                    }
                     Pin::new(&mut *this.us).consume(processed);
                     read_amt += processed;
                     *this.read_state = ReadState::Transferring(read_amt);
